@@ -44,6 +44,9 @@ func readOverlay(repo, dir string) (map[string][]byte, map[string]string, error)
 	if dir == "" {
 		return ov, repl, nil
 	}
+	if abs, err := filepath.Abs(dir); err == nil {
+		dir = abs
+	}
 	err := filepath.Walk(dir, func(path string, info os.FileInfo, err error) error {
 		if err != nil || info.IsDir() || !strings.HasSuffix(path, ".go") {
 			return err
